@@ -151,6 +151,12 @@ class H11Protocol:
 
     async def _handle_events(self) -> None:
         while True:
+            if self.connection.their_state is h11.MUST_CLOSE:
+                # The final request has been received in full, anything the
+                # client sent after it (e.g. pipelined requests) is ignored
+                # rather than treated as an error that aborts the response.
+                break
+
             if self.connection.they_are_waiting_for_100_continue:
                 await self._send_h11_event(
                     h11.InformationalResponse(
